@@ -43,8 +43,14 @@ func Schema(t *T, o SchemaOpts) *model.Schema {
 		o.MaxWrap = 3
 	}
 	s := &model.Schema{Query: "Q"}
+	// A fifth of the schemas is non-null heavy: chains of non-null positions are what a null has to travel through.
+	nonNullPct = 50
+	if chance(t, 20, "nonNullHeavy") {
+		nonNullPct = 85
+	}
+	defer func() { nonNullPct = 50 }()
 	nEnum, nInput, nScalar := intn(t, 0, 2, "nEnum"), intn(t, 0, 2, "nInput"), intn(t, 0, 1, "nScalar")
-	nIface, nUnion, nObj := intn(t, 0, 2, "nIface"), intn(t, 0, 2, "nUnion"), intn(t, 1, 4, "nObj")
+	nIface, nUnion, nObj := uniform(t, 3, "nIface"), uniform(t, 3, "nUnion"), 1+uniform(t, 4, "nObj")
 	for i := 0; i < nScalar; i++ {
 		s.Types = append(s.Types, &model.TypeDef{Kind: model.KScalar, Name: fmt.Sprintf("C%d", i), Desc: desc(t, o, "scalar")})
 	}
@@ -201,7 +207,7 @@ func Schema(t *T, o SchemaOpts) *model.Schema {
 	for _, n := range unions {
 		td := &model.TypeDef{Kind: model.KUnion, Name: n, Desc: desc(t, o, "union"), HasResolveType: chance(t, 70, "unionResolveType"), Thunked: chance(t, 30, "thunkedMembers")}
 		seen := map[string]bool{}
-		for j, k := 0, intn(t, 1, 3, "nMembers"); j < k; j++ {
+		for j, k := 0, 1+uniform(t, 3, "nMembers"); j < k; j++ {
 			m := pick(t, objs, "member")
 			if !seen[m] {
 				seen[m] = true
@@ -316,16 +322,20 @@ func wrapOut(t *T, name string, max int) model.TypeRef { return wrap(t, name, ma
 // WrapType is wrap for property files.
 func WrapType(t *T, name string, max int) model.TypeRef { return wrap(t, name, max) }
 
+// nonNullPct is the chance of a non-null wrapper where one may stand; Schema sets it per schema (all draws happen on
+// the goroutine that runs the property, so a package variable is enough).
+var nonNullPct = 50
+
 // wrap draws a wrapper chain of depth ≤ max without NonNull(NonNull).
 func wrap(t *T, name string, max int) model.TypeRef {
 	w := ""
 	depth := 0
 	if !chance(t, 45, "plain") {
-		depth = intn(t, 1, max, "wrapDepth")
+		depth = 1 + uniform(t, max, "wrapDepth")
 	}
 	for i := 0; i < depth; i++ {
 		c := "["
-		if (len(w) == 0 || w[len(w)-1] != '!') && chance(t, 50, "nonNull") {
+		if (len(w) == 0 || w[len(w)-1] != '!') && chance(t, nonNullPct, "nonNull") {
 			c = "!"
 		}
 		w += c
